@@ -6,6 +6,7 @@ import (
 	"io/ioutil"
 	"os"
 
+	"github.com/meshplus/bitxhub/verifharness/fix"
 	"github.com/meshplus/bitxhub/verifharness/mc"
 )
 
@@ -20,6 +21,7 @@ var Replayers = map[string]func(c *mc.Ctx, replay map[string]interface{}){}
 
 func Worker(args []string) int {
 	if len(args) > 0 && args[0] == "shard" {
+		defer fix.Cleanup()
 		return mc.WorkerMain(args[1:])
 	}
 	if len(args) > 0 && args[0] == "c11open" {
